@@ -34,7 +34,7 @@ on an append-only repository — with an error, before touching storage (`refuse
 theorem destructive_refused_before_storage (hc : Bool) (cmd : Cmd) (ops : List Op) (h : run hc false cmd = .runs ops)
     (hd : ∃ op ∈ ops, op.isProtectedRemoval = true) : ∃ e, run hc true cmd = .refused e := by
   cases cmd with
-  | backup d => cases d <;> (cases h; simp [dataWrites, Op.isProtectedRemoval] at hd)
+  | backup src d => cases d <;> (cases h; simp [dataWrites, Op.isProtectedRemoval] at hd)
   | deleteSnapshots => exact ⟨_, rfl⟩
   | saveSnapshots => cases h; simp [Op.isProtectedRemoval] at hd
   | prunePlan => cases h; simp at hd
@@ -93,11 +93,14 @@ theorem destructive_commands_table (hc : Bool) :
     simp only [run]
     split <;> exact ⟨_, rfl⟩
 
-/-- A command run with its dry-run flag performs no write and no removal at all (or is refused). -/
+/-- A command run with its dry-run flag performs no write and no removal at all (or is refused) — `cmd` ranges over
+every row AND every flag of a row; for backup that includes the source kind (`BackupSource`: a caller-supplied
+`ReadSource`, local paths, stdin, a stdin command — see `backup_dry_run_no_mutation_for_every_source` below for HOW the
+flag reaches the backend from each entry point). -/
 theorem dry_run_no_ops (hc appendOnly : Bool) (cmd : Cmd) (h : cmd.isDryRun = true) :
     run hc appendOnly cmd = .runs [] ∨ ∃ e, run hc appendOnly cmd = .refused e := by
   cases cmd <;> simp [Cmd.isDryRun] at h
-  case backup d => subst h; left; rfl
+  case backup src d => subst h; left; rfl
   case repairIndex d => subst h; cases appendOnly <;> simp [run]
   case repairSnapshots del d => subst h; cases appendOnly <;> cases del <;> simp [run]
   case rewriteSnapshots fg d => subst h; cases appendOnly <;> cases fg <;> simp [run]
@@ -214,7 +217,9 @@ theorem handle_flag_is_table_flag (mem : Rustic.Config.ConfigFile) (st : Rustic.
 
 /-- The harness tokens: what the traffic check expects is a refusal exactly where the table refuses. -/
 def aoTokens : List String :=
-  ["backup.new", "backup.same", "backup.dry.new", "backup.dry.same", "forget", "prune", "prune.instant", "prune.all",
+  ["backup.new", "backup.same", "backup.dry.new", "backup.dry.same", "backup.local.new", "backup.local.same",
+   "backup.local.dry.new", "backup.local.dry.same", "backup.cmd.new", "backup.cmd.same", "backup.cmd.dry.new",
+   "backup.cmd.dry.same", "forget", "prune", "prune.instant", "prune.all",
    "prune.early", "prune.instant.early", "prune.instant.all", "prune.fast", "prune.uncomp", "prune.cacheable", "prune.noresize",
    "prune.unused0.repackunl", "prune.keepdel.keeppack", "prune.instant.early.all.unused0", "prune.instant.ignore",
    "prune_plan", "repair_index", "repair_index.dry", "repair_index.readall", "repair_index.readall.dry",
@@ -354,7 +359,19 @@ theorem every_dry_flag_has_effective_twin :
                 dryTwinCases.any (fun p => isHotColdDamage p.1 && twinEffective c p.1 p.2)) = true := by
   decide
 
-/-! ### where the guards stand (`Model/CommandSteps.lean`: statement order of `prune_repository` / `repair_index`) -/
+/-- the backup source kinds the traffic check can drive in-process (`stdin` proper reads the process' standard input,
+which is the harness' op stream; in `backup()` it shares the cloned options with `stdinCommand`). -/
+def drivableSources : List BackupSource := [.readSource, .localPaths, .stdinCommand]
+
+/-- Every drivable source kind of backup has a `dryt` scenario — on a plain repository and on a hot/cold pair — in which
+the dry run is followed by its non-dry twin FROM THE SAME SOURCE KIND, and that twin really writes. -/
+theorem every_backup_source_has_effective_dry_twin :
+    drivableSources.all (fun src => [false, true].all (fun hc =>
+      dryTwinCases.any (fun p => isHotColdDamage p.1 == hc && cmdOfToken p.2 == some (.backup src true) &&
+        (match dryTwin p.1 p.2 with | some (res, ops) => res == "ok" && !ops.isEmpty | none => false)))) = true := by
+  decide
+
+/-! ### where the guards stand (`Model/CommandSteps.lean`: statement order of `prune_repository` / `repair_index` / `backup`) -/
 section Steps
 open Rustic.CommandSteps
 
@@ -483,6 +500,67 @@ theorem finalize_guard_alone_writes_in_dry_run (n : Nat) (h : n ≥ Rustic.Gen.C
   apply List.mem_append_right
   exact hl rest {} _ (by simp)
 
+/-! #### backup: from the caller's `BackupOptions` to the `DryRunBackend`, for every source kind -/
+
+/-- `backup()` hands the caller's options to `archive` unchanged except `parent_opts.force` (set for a stdin source): in
+particular `dry_run` — and every other field — is the caller's, whatever the source. -/
+theorem backup_hands_every_option_to_archive (dash : Bool) (o : BackupOpts) :
+    optsForArchive dash o = { o with parentForce := dash || o.parentForce } ∧ (optsForArchive dash o).dryRun = o.dryRun := by
+  cases dash <;> simp [optsForArchive]
+
+/-- the source kind named by `backupFrom` is the one the archiver is run on, with the options above, behind a
+`DryRunBackend` carrying the CALLER's flag. -/
+theorem backupFrom_runs_archiver_behind_callers_flag (src : BackupSource) (cmd : Nat) (o : BackupOpts) (a : Archiver) :
+    ∃ o', o'.dryRun = o.dryRun ∧ backupFrom src cmd o a = dryRunBackend o.dryRun (a src o') := by
+  cases src
+  · exact ⟨o, rfl, rfl⟩
+  · exact ⟨o, rfl, rfl⟩
+  · exact ⟨{ o with stdinCommand := none, parentForce := true }, rfl, rfl⟩
+  · exact ⟨{ o with stdinCommand := some cmd, parentForce := true }, rfl, rfl⟩
+
+/-- A dry-run backup performs no write and no removal on the repository — for EVERY source kind (caller-supplied
+`ReadSource` through `Repository::archive`; local paths, stdin, stdin command through `Repository::backup`), every
+option set, every stdin command, whatever the archiver issues on its backend. -/
+theorem backup_dry_run_no_mutation_for_every_source (src : BackupSource) (cmd : Nat) (o : BackupOpts) (a : Archiver)
+    (h : o.dryRun = true) : backupFrom src cmd o a = [] := by
+  obtain ⟨o', _, he⟩ := backupFrom_runs_archiver_behind_callers_flag src cmd o a
+  rw [he, h]; rfl
+
+/-- … and `Repository::backup` itself, for every `source` argument (`dash`) and every option set. -/
+theorem backup_fn_dry_run_no_mutation (dash : Bool) (o : BackupOpts) (a : Archiver) (h : o.dryRun = true) :
+    Rustic.CommandSteps.backup dash o a = [] := by
+  have := (backup_hands_every_option_to_archive dash o).2
+  simp only [Rustic.CommandSteps.backup, archive, this, h, dryRunBackend, if_true]
+
+/-- Without the flag everything the archiver issues reaches the repository (the dry-run theorem is not vacuous), and what
+backup does conforms to the table's `backup` row for that source kind and flag, in every state (append-only or not:
+backup is never refused). -/
+theorem backup_steps_conform_to_table (hc ao : Bool) (files : List File) (src : BackupSource) (cmd : Nat) (o : BackupOpts)
+    (a : Archiver) (ha : a.ok) :
+    conforms ⟨ao, files, hc⟩ ⟨.backup src o.dryRun, backupFrom src cmd o a⟩ = true ∧
+    (o.dryRun = false → ∃ o', backupFrom src cmd o a = a src o') := by
+  obtain ⟨o', _, he⟩ := backupFrom_runs_archiver_behind_callers_flag src cmd o a
+  constructor
+  · rw [he]
+    cases hd : o.dryRun
+    · simp only [conforms, run, dryRunBackend, Bool.false_eq_true, if_false, List.all_eq_true]
+      intro op hop
+      simpa using ha src o' op hop
+    · simp [conforms, run, dryRunBackend]
+  · intro hd
+    exact ⟨o', by rw [he, hd]; rfl⟩
+
+/-- The clone matters (seeded change C15-7, NOT the code): with the options for a stdin source built afresh from the
+stdin-relevant fields, a dry-run backup from stdin / from a stdin command lets EVERYTHING the archiver issues reach the
+repository (local paths and `Repository::archive` are unaffected — which is why traffic over those alone cannot see it). -/
+theorem fresh_stdin_options_write_in_dry_run (cmd : Nat) (o : BackupOpts) (a : Archiver) (h : o.dryRun = true) :
+    (∃ o', backupFromFreshStdinOpts .stdin cmd o a = a .stdin o') ∧
+    (∃ o', backupFromFreshStdinOpts .stdinCommand cmd o a = a .stdinCommand o') ∧
+    backupFromFreshStdinOpts .localPaths cmd o a = [] ∧ backupFromFreshStdinOpts .readSource cmd o a = [] := by
+  refine ⟨⟨_, rfl⟩, ⟨_, rfl⟩, ?_, ?_⟩
+  · simp [backupFromFreshStdinOpts, backupFreshStdinOpts, optsForArchiveFreshStdinOpts, archive, dryRunBackend, h]
+  · simp [backupFromFreshStdinOpts, archive, dryRunBackend, h]
+
 end Steps
 
 /-! ### non-vacuity -/
@@ -497,6 +575,18 @@ example : (Rustic.CommandSteps.pruneRepositoryGuardLate ⟨true, true, false, [7
     ([.remove ⟨.pack, 7⟩, .remove ⟨.pack, 8⟩], some .appendOnly) := by decide
 example : (Rustic.CommandSteps.pruneRepository ⟨false, true, true, [7], [1], [.write ⟨.index, 2⟩, .remove ⟨.index, 1⟩]⟩).1 =
     [.remove ⟨.pack, 7⟩, .remove ⟨.index, 1⟩, .write ⟨.index, 2⟩, .remove ⟨.index, 1⟩] := by decide
+-- backup from a stdin command: packs, index and snapshot with the flag off, nothing with it on; the seeded variant writes
+example : Rustic.CommandSteps.backupFrom .stdinCommand 7 { dryRun := false }
+    (fun _ _ => [.write ⟨.pack, 1⟩, .write ⟨.index, 2⟩, .write ⟨.snapshot, 3⟩]) =
+    [.write ⟨.pack, 1⟩, .write ⟨.index, 2⟩, .write ⟨.snapshot, 3⟩] := by decide
+example : Rustic.CommandSteps.backupFrom .stdinCommand 7 { dryRun := true }
+    (fun _ _ => [.write ⟨.pack, 1⟩, .write ⟨.index, 2⟩, .write ⟨.snapshot, 3⟩]) = [] := by decide
+example : Rustic.CommandSteps.backupFromFreshStdinOpts .stdinCommand 7 { dryRun := true }
+    (fun _ _ => [.write ⟨.pack, 1⟩, .write ⟨.index, 2⟩, .write ⟨.snapshot, 3⟩]) =
+    [.write ⟨.pack, 1⟩, .write ⟨.index, 2⟩, .write ⟨.snapshot, 3⟩] := by decide
+-- the archiver of a stdin backup sees `parent_opts.force` (no parent) and the caller's command
+example : Rustic.CommandSteps.backupFrom .stdinCommand 7 {} (fun s o => if s == .stdinCommand && o.parentForce && o.stdinCommand == some 7
+    then [.write ⟨.snapshot, 3⟩] else []) = [.write ⟨.snapshot, 3⟩] := by decide
 example : run false true .prune = .refused .appendOnly := rfl
 example : run false true (.applyConfig (.rejected (some false) .invalidInput)) = .refused (.validation .invalidInput) := rfl
 example : run false true (.applyConfig (.rejected (some true) .invalidInput)) = .refused .appendOnly := rfl
@@ -506,7 +596,7 @@ example : run false (step ⟨true, [⟨.snapshot, 1⟩], false⟩ ⟨.applyConfi
 /-- a history with a rejected `set_append_only(false)` in front of every destructive command: the files survive -/
 example : AllConform ⟨true, [⟨.snapshot, 1⟩, ⟨.pack, 2⟩], false⟩
     [⟨.applyConfig (.rejected (some false) .invalidInput), []⟩, ⟨.deleteSnapshots, []⟩,
-     ⟨.applyConfig (.rejected (some false) .internal), []⟩, ⟨.prune, []⟩, ⟨.backup false, [.write ⟨.snapshot, 3⟩]⟩] := by
+     ⟨.applyConfig (.rejected (some false) .internal), []⟩, ⟨.prune, []⟩, ⟨.backup .stdinCommand false, [.write ⟨.snapshot, 3⟩]⟩] := by
   decide
 example : classify { Rustic.Config.ConfigFile.new 2 7 9 with appendOnly := some true }
     { setAppendOnly := some false, setMinPackPct := some 200 } = .rejected (some false) .invalidInput := by decide
@@ -515,7 +605,7 @@ example : run true true (.repairHotcold false) = .runs hotcoldCopies := rfl
 example : "merge_snapshots" ∈ tableMethods ∧ "get_all_snapshots" ∈ tableMethods ∧ "frobnicate" ∉ tableMethods := by decide
 example : (step ⟨true, [], false⟩ ⟨.initWithConfig false, []⟩).appendOnly = false := rfl
 example : AllAppendOnly ⟨true, [⟨.snapshot, 1⟩, ⟨.pack, 2⟩], true⟩
-    [⟨.backup false, [.write ⟨.pack, 3⟩, .write ⟨.index, 4⟩, .write ⟨.snapshot, 5⟩]⟩, ⟨.prune, []⟩,
+    [⟨.backup .readSource false, [.write ⟨.pack, 3⟩, .write ⟨.index, 4⟩, .write ⟨.snapshot, 5⟩]⟩, ⟨.prune, []⟩,
      ⟨.rewriteSnapshots false false, [.write ⟨.snapshot, 6⟩]⟩] := by
   decide
 example : ¬ AllAppendOnly ⟨true, [⟨.snapshot, 1⟩], false⟩ [⟨.deleteSnapshots, [.remove ⟨.snapshot, 1⟩]⟩] := by
